@@ -84,3 +84,22 @@ Example C05_chain_nonvacuous :
 Proof.
   split; [cbn; repeat split; lra|]. intros v [<-|[<-|[<-|[]]]]; cbn; lra.
 Qed.
+
+(* ---------------- the scan made when a terminal event stops the run (proofs/ScanTerminal.v) ----------------
+   `process_events` calls `scan_terminal` on the still-pending requested times (`skipn next_idx t_eval`) before it appends
+   the event point and answers Interrupt.  The scan consumes exactly the pending times not beyond the event time; of these
+   it reports, in order, bit for bit and with the interpolant's value, those not before the step start (within tol); none
+   beyond the event is reported.  Any number type, any interpolant. *)
+Require Import IVP.proofs.ScanTerminal.
+Theorem C05_scan_terminal_spec :
+  forall (F : Type) (O : Ops F) (fwd : bool) (tol xold tev : F) (interp : F -> list F)
+         (te : list F) (i : nat) (t : list F) (ys : list (list F)),
+    let inside (v : F) := if fwd then Ops.leb O v tev else Ops.leb O tev v in
+    let take (v : F) := if fwd then Ops.leb O (Ops.sub O xold tol) v else Ops.leb O v (Ops.add O xold tol) in
+    exists k : nat, (k <= length te)%nat /\
+      Forall (fun v => inside v = true) (firstn k te) /\
+      (match nth_error te k with Some v => inside v = false | None => True end) /\
+      scan_terminal O fwd tol xold tev interp te i t ys =
+        ((i + k)%nat, rev (filter take (firstn k te)) ++ t, rev (map interp (filter take (firstn k te))) ++ ys).
+Proof. exact @scan_terminal_spec. Qed.
+Print Assumptions C05_scan_terminal_spec.
